@@ -210,7 +210,13 @@ impl Array {
     }
 
     fn val_iter(&self) -> impl Iterator<Item = &Val> {
-        self.arr.iter().chain(self.dict.values())
+        // dictionary values in key order (the order `Display` uses), not in hash-table order
+        self.arr.iter().chain(
+            self.dict
+                .iter()
+                .sorted_unstable_by_key(|(k, _)| ToString::to_string(k))
+                .map(|(_, v)| v),
+        )
     }
 
     fn is_empty(&self) -> bool {
